@@ -157,6 +157,20 @@ func c13Run(c *Ctx, idx int) {
 		mo1.Set("v", hiKey)
 		mo2.Set("v", k)
 		o.Set("m", &ref.Arr{E: []ref.V{mo1, mo2}})
+		if n >= 64 && n <= 257 {
+			// a long inner array (size classes of 64 and more on both levels at once)
+			mm := &ref.Arr{E: make([]ref.V, 70)}
+			for j := range mm.E {
+				q := ref.NewObj()
+				if j == (i*7)%70 {
+					q.Set("v", k)
+				} else {
+					q.Set("v", hiKey)
+				}
+				mm.E[j] = q
+			}
+			o.Set("mm", mm)
+		}
 		recs.E[i] = o
 		plain.E[i] = k
 	}
@@ -238,6 +252,9 @@ func c13Run(c *Ctx, idx int) {
 	sortTexts := []string{"sort_by(rs, &k)", "sort_by(rs, &n[0])", "let $z = `0` in sort_by(rs, &not_null(n[1], k, $z))"}
 	if n <= 1000 {
 		sortTexts = append(sortTexts, "sort_by(rs, &sort_by(m, &v)[0].v)", "sort_by(rs, &min_by(m, &v).v)", "sort_by(rs, &sort(m[*].v)[0])", "sort_by(rs, &min(n))", "sort_by(rs, &sort_by([@, @], &k)[1].k)", "sort_by(rs, &map(&v, m)[1])")
+	}
+	if n >= 64 && n <= 257 {
+		sortTexts = append(sortTexts, "sort_by(rs, &sort_by(mm, &v)[0].v)", "sort_by(rs, &min_by(mm, &v).v)", "sort_by(rs, &sort(mm[*].v)[0])")
 	}
 	for _, text := range sortTexts {
 		out, ok := getRecs(text)
